@@ -653,3 +653,6 @@ PROPS["C07"]["rule"] += " One solicitation burst in four is a crowd: 2, 5, 40, 7
 PROPS["C11"]["rule"] += " Close latencies also 5 s + 1 ns, 11 s, 31 s, 91 s."
 PROPS["C10"]["rule"] += " Close latencies also 5 s + 1 ns, 11 s, 31 s, 91 s."
 PROPS["C20"]["rule"] += " Tasks take 1 ns, 1 s, 5 s + 1 ns, 11 s, 30 s, 31 s, 91 s or 301 s to return after cancellation."
+
+PROPS["C03"]["rule"] += " System states include hardware addresses that are not 48 bits long (1, 4, 5, 7, 8, 16, 20, 32 bytes; one state with an address in six): whatever is built must encode (finding F20)."
+PROPS["C01"]["rule"] += " Hardware addresses are absent, 48 bits long, or (one in six of those present) 1..32 bytes long: only a 48-bit address yields a source link-layer address option."
